@@ -42,7 +42,9 @@ class EADeme(AbstractDeme):
         epoch_counter = 0
         metaepoch_generations = []
         while epoch_counter < self._generations:
-            offspring = self._ea.run(self.current_population, mutation_std=self._get_mutation_std())
+            # Each generation is bred from the one before it (the first one from the current population).
+            parents = metaepoch_generations[-1] if metaepoch_generations else self.current_population
+            offspring = self._ea.run(parents, mutation_std=self._get_mutation_std())
             epoch_counter += 1
             metaepoch_generations.append(offspring)
 
